@@ -1,9 +1,6 @@
 (* Corr/C14.v — judges for the fixed-form converter *)
 From Ford Require Import Base.Str Lex.Quote Lex.Reader Lex.ReaderSpec Lex.Fixed Corr.C02.
 
-Definition chomp (x : str) : str :=
-  match rev x with c :: r => if Ascii.eqb c nl then rev r else x | [] => x end.
-
 (* (length_limit, fixed-form lines with their newlines, converter output of the implementation) *)
 Definition judge_convert (c : bool * list str * list str) : nat :=
   let '(ll, lines, impl) := c in
